@@ -864,13 +864,23 @@ def deck_stream(res, rng, quick):
     cases, metas = [], []
     n_points = n_checked = 0
     stats_total = {}
+    # corpus: forced shapes generated from fixed seeds (the same decks whatever
+    # --seed is), so that the shapes that matter are always present
+    corpus = []
+    for j, force in enumerate(CORPUS_SHAPES):
+        for rep in range(2 if quick else 6):
+            corpus.append((dict(force), random.Random(4242 + 97 * j + rep)))
+    n_valid += len(corpus)
     for k in range(n_valid + n_broken):
         broken = k >= n_valid
         force = {}
+        gen_rng = rng
+        if k < len(corpus):
+            force, gen_rng = corpus[k]
         if broken and rng.random() < 0.3:
             force = {'both_tr': True, 'lat_trcl': True, 'homogeneous': True,
                      'fill_tr': True}
-        deck, meta = c06_gen.gen_deck(rng, force)
+        deck, meta = c06_gen.gen_deck(gen_rng, force)
         fault = None
         if broken and not force:
             fault = c06_gen.break_deck(rng, deck, meta)
@@ -985,6 +995,40 @@ def deck_stream(res, rng, quick):
               'check_develop', cases, metas,
               lambda m: f'fault={m["fault"]} out={m["out"]} deck=\n{m["deck"]}')
     return bad
+
+
+CORPUS_SHAPES = [
+    # rotating fill transformation on 1-D, 2-D, 3-D lattices (a82b50a)
+    {'d': 1, 'kind': 'rot', 'homogeneous': True, 'fill_tr': True,
+     'fill_tr_mode': 'rot', 'lat_trcl': False},
+    {'d': 2, 'kind': 'skew', 'homogeneous': True, 'fill_tr': True,
+     'fill_tr_mode': 'rot', 'lat_trcl': False},
+    {'d': 3, 'kind': 'ortho', 'rpp': False, 'homogeneous': True,
+     'fill_tr': True, 'fill_tr_mode': 'rot', 'lat_trcl': False},
+    # TRCL on the lattice cell, array fill
+    {'d': 2, 'kind': 'skew', 'homogeneous': False, 'lat_trcl': True},
+    {'d': 3, 'kind': 'rot', 'homogeneous': False, 'lat_trcl': True,
+     'cont_tr': True},
+    {'d': 1, 'kind': 'ortho', 'homogeneous': True, 'fill_tr': False,
+     'lat_trcl': True},
+    # skew cells, array fills, no transformation
+    {'d': 2, 'kind': 'skew', 'homogeneous': False, 'lat_trcl': False,
+     'cont_tr': False},
+    {'d': 3, 'kind': 'skew', 'homogeneous': False, 'lat_trcl': False,
+     'cont_tr': False},
+    # RPP macrobody unit cell
+    {'d': 3, 'kind': 'ortho', 'rpp': True, 'homogeneous': False},
+    {'d': 3, 'kind': 'ortho', 'rpp': True, 'homogeneous': True,
+     'fill_tr': True, 'fill_tr_mode': 'transl'},
+    # one-point ranges in the lattice's own dimensions (open finding)
+    {'d': 2, 'kind': 'ortho', 'homogeneous': False, 'keep_degenerate': True,
+     'ranges': [(-1, 1), (2, 2)]},
+    {'d': 1, 'kind': 'rot', 'homogeneous': False, 'keep_degenerate': True,
+     'ranges': [(-2, -2)]},
+    # negative ranges, 3-D, transformed container
+    {'d': 3, 'kind': 'rot', 'homogeneous': False, 'cont_tr': True,
+     'ranges': [(-3, -2), (-1, 0), (1, 2)]},
+]
 
 
 def lits_of(deck):
